@@ -6,13 +6,13 @@ Instances (per mechanism x mode; SM3 / HMAC-SM3 / SM4 with exact bytes):
           reseeds, failing calls) in every context (reseed_counter 1..interval+1, last k ops)
   sizes   request sizes 0..max+1 (NIST: 2048 / 2049 bytes), each followed by every other
   lens    instantiate with entropy / nonce / personalisation lengths incl. below-minimum, then a probe
-  reach   (thorough) every op sequence over {Generate, Generate+additional, Reseed} of length <= 11 that
-          still runs into the reseed gate
+  reach   (thorough) every op sequence over {Generate, Generate+additional, Reseed} of length <= 11 (HMAC: 9)
+          that still runs into the reseed gate and sees the refusal
   tick    GM/T 0105 time rule: the replayer really sleeps past the 6 s test-level interval (one scenario
           per mechanism and mode; time is no criterion in NIST mode)
   tree    envelope only (Exact = FALSE: refusals, errors, NeedReseed, buffers - no bytes): EVERY op sequence
-          over {Generate, Generate+additional, Reseed} up to length 10 (quick) / 11 (thorough) and over the
-          same plus failing calls up to length 7 / 8; replayed on SM3, SHA-256, SHA-512 / SM4, AES-128/192/256
+          over {Generate, Generate+additional, Reseed} up to length 9 (quick) / 10 (thorough) and over the
+          same plus failing calls up to length 6; replayed on SM3, SHA-256, SHA-512 / SM4, AES-128/192/256
   prng    reader wrapper with a scripted entropy source: fault (short / error / empty) at every call index,
           Read sizes across the per-request maximum
 """
@@ -96,19 +96,23 @@ def run(ctx):
         mc("cover", "exact", mech, gm, 3 if mech != "ctr" else 2, InstOps=std, GenOps=S(gens), ReseedOps=S(res), MaxOps=99, Window=w)
         # request sizes across the per-request maximum (GM maxima are one block: already in the cover alphabet)
         if not gm and quick:
-            mc("sizes", "exact", mech, gm, 1, InstOps=S([]), GenOps=S([]), ReseedOps=S([]), ScriptName='"sizes"', MaxOps=10, Window=99, LeavesOnly="TRUE")
+            sn = "sizes2" if mech == "hmac" else "sizes"      # HMAC: 2048 bytes = 64 HMACs; the long script is in the thorough tier
+            mc("sizes", "exact", mech, gm, 1, InstOps=S([]), GenOps=S([]), ReseedOps=S([]), ScriptName='"%s"' % sn, MaxOps=4 if mech == "hmac" else 10,
+               Window=99, LeavesOnly="TRUE")
         elif not gm:
             sizes = [G(0), G(b + 1, 7), G(2048), G(2049, 7)] if mech == "hmac" else \
                     [G(0), G(1), G(b - 1), G(b), G(b + 1), G(2047, 7), G(2048), G(2048, 7), G(2049), G(2049, 7)]
             mc("sizes", "exact", mech, gm, 3, InstOps=std, GenOps=S(sizes), ReseedOps=S([]), MaxOps=3, Window=1)
+            mc("sizescript", "exact", mech, gm, 1, InstOps=S([]), GenOps=S([]), ReseedOps=S([]), ScriptName='"sizes"', MaxOps=10, Window=99, LeavesOnly="TRUE")
         # instantiation lengths incl. below-minimum
         if gm:
             insts = [I(31, 16, 0), I(32, 15, 0), I(0, 16, 0), I(32, 0, 0), I(32, 16, 0), I(33, 17, 5), I(64, 32, 64), I(48, 16, 1)]
         else:
             insts = [I(0, 16, 0), I(32, 0, 0), I(1, 1, 0), I(16, 8, 0), I(32, 16, 1), I(55, 17, 64), I(56, 16, 0), I(64, 16, 55), I(14, 7, 0)]
         mc("lens", "exact", mech, gm, 2, InstOps=S(insts), GenOps=S([G(b), G(b, 3)]), ReseedOps=S([R(32, 1)]), MaxOps=3, Window=1)
-        if not quick and mech != "hmac":
-            mc("reach", "exact", mech, gm, 4, InstOps=std, GenOps=S([G(b), G(b, 5)]), ReseedOps=S([R(32)]), MaxOps=11, Window=99, Reach="TRUE")
+        if not quick:
+            mc("reach", "exact", mech, gm, 4, InstOps=std, GenOps=S([G(b), G(b, 5)]), ReseedOps=S([R(32)]), MaxOps=10 if mech == "hmac" else 12,
+               Window=99, Reach="TRUE")
     # GM/T 0105 time rule (and its absence in NIST mode): one scripted scenario each, replayed once (passes = 1)
     for mech, gm in COMBOS + [("hmac", True)]:
         nm = "tick_" + name_of(mech, gm)
@@ -124,7 +128,7 @@ def run(ctx):
         big = G(b + 1) if gm and mech != "hmac" else (G(2049) if mech != "hmac" else None)
         bad = R(31) if gm else R(0)
         for kind, gens, res, depth in (("tree", [G(b), G(b, 5)], [R(32)], 10 if quick else 11),
-                                       ("etree", [G(b), G(b, 5)] + ([big] if big else []), [R(32), bad], 7 if quick else 8)):
+                                       ("etree", [G(b), G(b, 5)] + ([big] if big else []), [R(32), bad], 7)):
             nm = "%s_%s" % (kind, name_of(mech, gm))
             o = os.path.join(sc, "c17-%s.ndjson" % nm)
             files["env"].append(o)
@@ -197,7 +201,7 @@ def run(ctx):
         futs = [ex.submit(ctx.replay, f, lab(K[0], os.path.basename(f)[4:-7]), 30) for f in files["tick"]]
         futs += [ex.submit(ctx.replay, exact, c) for c in K]
         futs += [ex.submit(ctx.replay, prngf, lab(c, "prng")) for c in K]
-        futs += [ex.submit(ctx.replay, env, lab(c, "envelope")) for c in (K[0], K[3])]
+        futs += [ex.submit(ctx.replay, f, lab(c, "envelope " + os.path.basename(f)[4:-7])) for f in files["env"] for c in (K[0], K[3])]
         for f in futs:
             f.result()
     ph["replay"] = round(time.time() - t0)
@@ -205,10 +209,10 @@ def run(ctx):
     ctx.binding_guard(exact, K[0])
     ctx.binding_guard(prngf, lab(K[0], "prng"))
     # code -> spec
-    nrec = 24 if quick else 400
+    nrec = 24 if quick else 200
     def rv(c):
         ev = ctx.record("drbg", nrec, tags=c["tags"], env=c["env"], name="drbg-" + c["label"])
-        ctx.validate("Trace_Drbg", ev, "drbg", shards=5, label=c["label"], guard=(c is K[0]), timeout=3000,
+        ctx.validate("Trace_Drbg", ev, "drbg", shards=5 if quick else 8, label=c["label"], guard=(c is K[0]), timeout=3000,
                      constants=dict(Exact="TRUE", Interval=8, TimeLimit=6000))
     with concurrent.futures.ThreadPoolExecutor(max_workers=3) as ex:
         for f in [ex.submit(rv, c) for c in (K[0], K[2], K[3])]:
